@@ -142,7 +142,7 @@ func (p *Prog) statusFlowCheck(fn *ssa.Function, c *ssa.Call, coll *ssa.Paramete
 					return // another evaluation takes over
 				}
 				for _, a := range x.Call.Args {
-					if a == ssa.Value(coll) {
+					if a == ssa.Value(coll) && !tinyPredicate(x.Call.StaticCallee()) {
 						evidence = true // an append (or another use that is not an evaluation)
 					}
 				}
@@ -231,14 +231,10 @@ func (p *Prog) statusFlowCheck(fn *ssa.Function, c *ssa.Call, coll *ssa.Paramete
 				// (the test may be a hoisted flag: the facts of the edge say
 				// whether it implies a nil collector)
 				shortcut := -1
-				for si := range b.Succs {
-					for _, f := range appendFact(nil, Fact{x.Cond, si == 0}, 0) {
-						if bo, ok := f.Cond.(*ssa.BinOp); ok && bo.X == ssa.Value(coll) && isNilConst(bo.Y) {
-							if (bo.Op == token.EQL) == f.Truth {
-								shortcut = si
-							}
-						}
-					}
+				if impliesNilCollector(x.Cond, coll) {
+					shortcut = 0
+				} else if tv, u := collTruth(x.Cond, coll, false, nil, 0); u && tv == triTrue {
+					shortcut = 1
 				}
 				for si, s := range b.Succs {
 					if (si == 0 && !t) || (si == 1 && !e) {
@@ -374,7 +370,20 @@ var ruleCollBlind = &Rule{
 							case *ssa.Call:
 								bad = "argument of the call to " + calleeName(&x.Call) + " at " + p.pos(x.Pos())
 							case *ssa.Return:
-								bad = "returned at " + p.pos(x.Pos())
+								// a named predicate (a function that is nothing but
+								// such tests) may return it: its callers are held to
+								// the same rule
+								if h := x.Parent(); tinyPredicate(h) && p.CG.Nodes[h] != nil {
+									for _, e := range p.CG.Nodes[h].In {
+										if c, ok := e.Site.(*ssa.Call); ok && c.Call.StaticCallee() == h {
+											visit(c)
+										} else {
+											bad = "returned at " + p.pos(x.Pos()) + " to a caller that is not a plain call"
+										}
+									}
+								} else {
+									bad = "returned at " + p.pos(x.Pos())
+								}
 							case *ssa.Store:
 								bad = "stored at " + p.pos(x.Pos())
 							default:
